@@ -92,6 +92,9 @@ def check_case(case):
     from pv.harness import build_objects, lib_objects
     objs = lib_objects(domain, build_objects(domain, objects))
     kind, exp = classify(dom, world, members, st)
+    if exp is not None and any(abs(v) > 10 ** 9 for v in exp[1].values()):
+        res.skipped = "magnitude-beyond-float-precision"
+        return res
     has_forall = any("forall" in pddl.heads(pddl.find_action(dom, m[0])["eff"]) for m in members)
     res.classes = [kind + f":{len(members)}"]
     res.nontrivial = len(members) >= 2 and kind in ("ok", "inapplicable")
